@@ -19,6 +19,7 @@ var c08Pool = []c08Rule{
 	{"precision", "2"}, {"optional", "true"}, {"optional", "false"}, {"nullable", "true"}, {"nullable", "false"}, {"const", "true"}, {"const", "false"},
 	{"enum", `[5, "a", 1.5, true, null]`}, {"or", `[{type: "integer"}, {type: "string"}]`}, {"or", `["@t", "string"]`},
 	{"minItems", "1"}, {"maxItems", "3"}, {"additionalProperties", "true"}, {"additionalProperties", `"string"`}, {"allOf", `"@t"`}, {"bogusRule", "1"},
+	{"exclusiveMaximum", "false"},
 }
 
 // node kinds: example text and whether it is rendered as a property of an object
@@ -162,6 +163,20 @@ func ZZC08OrderFlags() {
 			v.Fail("C08/verdict-depends-on-rule-order")
 		}
 	}
+	// nullable: false and const: false are inert: leaving them out does not change the verdict
+	// (on every node, not only on the root of the schema)
+	var kept []c08Rule
+	for _, r := range rules {
+		if (r.name == "nullable" || r.name == "const") && r.val == "false" {
+			continue
+		}
+		kept = append(kept, r)
+	}
+	if len(kept) < len(rules) && len(kept) > 0 {
+		without := c08Schema(node, asProp, kept, -1)
+		v.Observe("without", without)
+		v.Assert(c08Check(without) == want, "C08/false-valued-flag-is-not-inert")
+	}
 }
 
 // single-rule applicability table of the statement
@@ -195,7 +210,7 @@ func c08Applies(r c08Rule, k gen.Kind, asProp bool) bool {
 func ZZC08Single() {
 	node := v.Choose(0, len(c08Nodes)-1)
 	asProp := v.Choose(0, 1) == 1
-	names := []int{0, 1, 2, 4, 5, 6, 7, 22, 23, 24, 25, 26, 32, 33, 34, 36, 37}
+	names := []int{0, 1, 2, 3, 4, 5, 6, 7, 22, 23, 24, 25, 26, 32, 33, 34, 36, 37, 38}
 	r := c08Pool[names[v.Choose(0, len(names)-1)]]
 	text := c08Schema(node, asProp, []c08Rule{r}, -1)
 	v.Observe("schema", text)
